@@ -46,4 +46,10 @@ CHECKS.update({
         note="Complex::norm (libm) is supplied by the harness; the finding is keyed by the call site in known_findings.json",
         technique="Lean 4 proof (defect characterisation + refutation witness) + correspondence check against the defect model"),
 })
+CHECKS.update({
+    'C05': dict(
+        text="Kernel-decided (decide +kernel) obligations on the table, prefix list and composition certificates regenerated from src/si on every run, lifted by a proved soundness lemma: every name-composable unit (2 219) has a reading of its identifier (prefixes, unit names, per/square/cubic/squared/cubed) with the quantity's dimension whose value reproduces the declared coefficient within 2^-50; the seven base units and every unit composed of un-prefixed base units have coefficient exactly 1 and no offset; every quantity has a coherent unit; 40 exactly defined anchors and 7 seven-digit anchors; f64/f32 coefficients within 2–8 ulps of the exact declaration; unit partition is complete. Correspondence: exhaustive diff of the run-time registry (order, names, labels, f32/f64 coefficient and constant bits, exponents, kinds) with the table. Known findings F6a/F6b",
+        note="the derivation finder is trusted for completeness only (soundness is kernel-checked); anchor lists are hand-written oracles",
+        technique="Lean 4 proof by kernel evaluation of regenerated table obligations + exhaustive registry correspondence"),
+})
 NOT_APPLICABLE = {}
